@@ -105,6 +105,32 @@ theorem C07_norelift_step (X0 U : List (List α)) (i : Nat)
   exact trajNoRelift_rec (rowFn ops ok) p U _ 1 _ X0 _ []
     (by intro j hj; simp at hj) (by simp) (by intro _; simp) i hi
 
+/-- the output shapes of the no-relift mode: with `n = |U| ≥ m` supplied input rows the loop returns `n`
+retracted states, `n − m + 1` lifted states and `n − m + 1` lifted inputs -/
+theorem C07_norelift_shapes (X0 U : List (List α)) (hX0 : X0.length = p.m) (hU : p.m ≤ U.length) :
+    (trajNoReliftAll (rowFn ops ok) p X0 U).1.length = U.length
+    ∧ (trajNoReliftAll (rowFn ops ok) p X0 U).2.1.length = U.length - p.m + 1
+    ∧ (trajNoReliftAll (rowFn ops ok) p X0 U).2.2.length = U.length - p.m + 1 := by
+  unfold trajNoReliftAll
+  simp only []
+  obtain ⟨h1, h2⟩ := trajNoRelift_lengths (rowFn ops ok) p U (U.length - p.m + 1) 1
+    (((liftStateEp (rowFn ops ok) p X0).head?).getD []) X0 [((liftStateEp (rowFn ops ok) p X0).head?).getD []] []
+  refine ⟨by rw [h2]; omega, by rw [h1]; simp; omega, by rw [trajNoRelift_ups_length]; simp⟩
+
+/-- every lifted-input row the no-relift mode returns — the last one included — is `lift_input` of the window of
+returned states and supplied inputs of its own time step -/
+theorem C07_norelift_inputs (X0 U : List (List α)) (hX0 : X0.length = p.m) (j : Nat)
+    (hj : j < U.length - p.m + 1) :
+    (trajNoReliftAll (rowFn ops ok) p X0 U).2.2[j]?
+      = some (((liftInputEp (rowFn ops ok) p (window j p.m (trajNoReliftAll (rowFn ops ok) p X0 U).1)
+          (window j p.m U)).head?).getD []) := by
+  unfold trajNoReliftAll
+  simp only []
+  have := trajNoRelift_ups_get (rowFn ops ok) p U (U.length - p.m + 1) 1
+    (((liftStateEp (rowFn ops ok) p X0).head?).getD []) X0 [((liftStateEp (rowFn ops ok) p X0).head?).getD []] []
+    (by omega) (by omega) (by simpa using hX0) j hj
+  simpa using this
+
 /-- `predict`, per label: transform, multiply every lifted row by the Koopman matrix, pad zero lifted
 inputs, inverse-transform, keep the state — the definition the recursion above refers to -/
 theorem C07_predict_def (X : Ep α) :
